@@ -44,3 +44,29 @@ Fixpoint dnode_ok (c : ctx) (top : bool) (g : gmeta) (n : tnode) {struct n} : bo
     end
   end.
 Definition dnodes_ok (c : ctx) (top : bool) (g : gmeta) (ns : list tnode) : bool := forallb (dnode_ok c top g) ns.
+
+(* c01_groups: the hypothesis of c01_roundtrip_groups_partial besides wf_msg / fresh / vals_canonical:
+   header without group elements and Length fields (as in c01_flat), no trailer field besides
+   CheckSum, BODY = any decodable tree (groups with any number of elements nested to any depth;
+   no Length-typed field at message level of the body, inside elements they are plain fields) *)
+Definition c01_groups (c : ctx) (m : message) : bool :=
+  let h0 := set_value (m_hdr m) Common_MsgType (m_type m) in
+  match tree_of c h0, tree_of c (m_body m), tree_of c (m_trl m) with
+  | Some (TN _ _ rv35 _ :: hn'), Some bn, Some [] =>
+    match find_msg (c_msgs c) rv35 with
+    | None => false
+    | Some md =>
+      list_eqb rv35 (m_type m) && forallb (fun b => negb (b =? 0)) rv35 && (lenN rv35 <? 32) &&
+      hdr0_ok c && trl0_ok c &&
+      (* header *)
+      (3 + lenN hn' <? 65536) && nodupN (map n_tag hn') &&
+      forallb (flat_okb c (mb_fp (H0 c))) hn' && forallb (vis_okb c (mb_fp (H0 c))) hn' &&
+      forallb pokb hn' && forallb not_auto_tag hn' &&
+      no_trait (mb_fp (H0 c)) (match bn with n :: _ => n_tag n | [] => 10 end) &&
+      match find_missing (fp_after (mb_fp (H0 c)) hn') with None => true | Some _ => false end &&
+      (* body *)
+      (lenN bn <? 65536) && nodupN (map n_tag bn) && dnodes_ok c true (md_meta md) bn &&
+      match find_missing (fp_after (g_traits (md_meta md)) bn) with None => true | Some _ => false end
+    end
+  | _, _, _ => false
+  end.
